@@ -297,6 +297,13 @@ def run(chk):
            "x[t+shift] = cum_func(x[t], change[t])", m.loc(bw))
     chk.guard(rule_r6, chk)
     chk.guard(rule_r7, chk)
+    def _daily(chk_):
+        chk_.rule("C13-R8", "the reference period of the keyword shifts on daily data is the calendar one: DailyPeriod.create_soy / create_eoy / create_eopy / "
+                  "create_som evaluated finitely against the calendar on 7 days incl. a leap day and both year ends (eopy after a leap year is "
+                  "31 December, not day 365)", floor=3, shape_independent=True)
+        from . import c09
+        c09.daily_keyword_periods(chk_, "C13-R8", chk_.repo.mod("irispie.dates"))
+    chk.guard(_daily, chk)
     from .. import unused as _unused
     chk.guard(_unused.apply, chk, "C13-R91")
     from .. import args as _args
